@@ -54,7 +54,12 @@ def cases(draw, tier):
             "scalar_param": draw(st.booleans()),
             "badlen": draw(st.sampled_from([0, 0, 1, 2, 3, 5])),
             "bad": draw(st.sampled_from(["order0", "order11", "nanparam",
-                                         "nanmean", "nanini"]))}
+                                         "nanmean", "nanini",
+                                         "order11-trailing-zero",
+                                         "order13-trailing-zeros",
+                                         "order11-all-zeros",
+                                         "order12-leading-zeros",
+                                         "order25"]))}
 
 
 def ref_sim(phi, e, m, ini):
@@ -233,6 +238,18 @@ def oracle(case):
         a = (np.zeros(0), x, {})
     elif bad == "order11":
         a = (np.full(11, 0.05), x, {})
+    elif bad == "order11-trailing-zero":
+        # the supported part followed by exactly zero coefficients is still
+        # a vector of unsupported length
+        a = (np.concatenate([np.resize(phi, 10), [0.]]), x, {})
+    elif bad == "order13-trailing-zeros":
+        a = (np.concatenate([np.resize(phi, 10), [0., 0., 0.]]), x, {})
+    elif bad == "order11-all-zeros":
+        a = (np.zeros(11), x, {})
+    elif bad == "order12-leading-zeros":
+        a = (np.concatenate([[0., 0.], np.resize(phi, 10)]), x, {})
+    elif bad == "order25":
+        a = (np.full(25, 0.01), x, {})
     elif bad == "nanparam":
         pp = phi.copy()
         pp[-1] = np.nan
